@@ -84,6 +84,33 @@ def parser():
     return _PARSER
 
 
+def _cached_parse(body: str):
+    """parse trees are cached by the digest of (grammar, function body) outside the repository and /verif: the Earley parser is slow
+    and the bodies rarely change; a changed body has a different digest and is parsed afresh"""
+    import hashlib
+    import os
+    import pickle
+
+    key = hashlib.sha256((GRAMMAR + "\0" + body).encode()).hexdigest()
+    d = os.path.expanduser("~/.cache/eko-verif-parse")
+    p = os.path.join(d, key + ".pkl")
+    try:
+        with open(p, "rb") as fh:
+            return pickle.load(fh)
+    except Exception:
+        pass
+    tree = parser().parse(body)
+    try:
+        os.makedirs(d, exist_ok=True)
+        tmp = p + f".{os.getpid()}.tmp"
+        with open(tmp, "wb") as fh:
+            pickle.dump(tree, fh)
+        os.replace(tmp, p)
+    except Exception:
+        pass
+    return tree
+
+
 class RsFn:
     def __init__(self, file: RsFile, name: str, params, ret: str, body: str, pos: int):
         self.file, self.name, self.params, self.ret, self.body, self.pos = file, name, params, ret, body, pos
@@ -99,7 +126,7 @@ class RsFn:
             try:
                 body = re.sub(r"\b([A-Z]\w*)\s*\{\s*(\w+)\s*\}", r"mkstruct!(\1, \2)", self.body)
                 body = re.sub(r"::<[^<>]*>", "", body)
-                self._tree = parser().parse(body)
+                self._tree = _cached_parse(body)
             except lark.exceptions.LarkError as e:
                 raise AnalysisError(f"cannot parse Rust function {self.name} in {self.file.rel}: {str(e)[:200]}")
         return self._tree
